@@ -223,7 +223,7 @@ def random_case(rng, maxlen=40):
                 g["verb"] = rng.choice([0, 1, 2, 4])
                 case["ops"].append({"op": "verb", "s": s, "n": g["verb"]})
             continue
-        if x < 0.55 or g["quiet"]:  # clear / overwrite of a quiet section: outside the domain (notes, finding 3)
+        if x < 0.55:
             lines = [_line(rng, w, nl + j) for j in range(rng.choice([1, 1, 1, 2, 2, 3]))]
             nl += len(lines)
             flag = rng.choice([0, 0, 1, 1, 2, 4]) if gated else 0
@@ -234,15 +234,16 @@ def random_case(rng, maxlen=40):
             lines = [_line(rng, w, nl + j) for j in range(rng.choice([1, 1, 2]))]
             nl += len(lines)
             op = {"op": "overwrite", "s": s, "lines": lines}
-            if ansi:
+            if ansi and not g["quiet"]:  # clear / overwrite on a quiet section change nothing
                 counts[s - 1] = len(lines)
         elif x < 0.8 or (ansi and counts[s - 1] == 0):
             op = {"op": "clear", "s": s}
-            counts[s - 1] = 0
+            if not (ansi and g["quiet"]):
+                counts[s - 1] = 0
         else:
             n = rng.randint(1, counts[s - 1]) if ansi else rng.randint(1, 3)
             op = {"op": "clearn", "s": s, "n": n}
-            if ansi:
+            if ansi and not g["quiet"]:
                 counts[s - 1] -= n
         if "lines" in op and rng.random() < 0.2:
             op["markup"] = [_markup(rng, x) for x in op["lines"]]
